@@ -4,10 +4,24 @@ _cgo_gotypes.go -> pure-Go shim (C functions are environment calls), C sources d
 import os, subprocess, glob, json
 
 
-def build(scratch, repo, verif, goenv):
+def build(scratch, repo, verif, goenv, patched=None):
+    """patched: optional dict virtual path -> patched file (mutants). Entries for files of /repo/contract are consumed
+    here (removed from the dict): `go tool cgo` then runs on a scratch copy of the directory with the patched text."""
     d = os.path.join(scratch, "cgo")
     os.makedirs(d, exist_ok=True)
     cdir = os.path.join(repo, "contract")
+    srcdir = cdir
+    mine = {k: v for k, v in (patched or {}).items() if os.path.dirname(k) == cdir}
+    if mine:
+        import shutil
+        srcdir = os.path.join(scratch, "contract_src")
+        os.makedirs(srcdir, exist_ok=True)
+        for fn in os.listdir(cdir):
+            if os.path.isfile(os.path.join(cdir, fn)) and fn.endswith((".go", ".h", ".c")) and not fn.endswith("_test.go"):
+                shutil.copy(os.path.join(cdir, fn), os.path.join(srcdir, fn))
+        for k, v in mine.items():
+            shutil.copy(v, os.path.join(srcdir, os.path.basename(k)))
+            del patched[k]
     env = dict(goenv, CGO_ENABLED="1")
     files = subprocess.run(["go", "list", "-f", '{{join .CgoFiles " "}}', "."], cwd=cdir, env=env, stdout=subprocess.PIPE, stderr=subprocess.PIPE, text=True)
     cgofiles = files.stdout.split()
@@ -17,9 +31,12 @@ def build(scratch, repo, verif, goenv):
     cmd = ["go", "tool", "cgo", "-objdir", d, "-importpath", "github.com/aergoio/aergo/v2/contract", "--",
            "-I/usr/include/lua5.1", "-I" + shim, "-I/usr/include/x86_64-linux-gnu", "-I.", "-DLJ_TARGET_POSIX",
            "-include", os.path.join(shim, "luajit.h")] + cgofiles
-    r = subprocess.run(cmd, cwd=cdir, env=env, stdout=subprocess.PIPE, stderr=subprocess.STDOUT, text=True)
+    r = subprocess.run(cmd, cwd=srcdir, env=env, stdout=subprocess.PIPE, stderr=subprocess.STDOUT, text=True)
     if r.returncode != 0:
         raise RuntimeError("cgoshim: go tool cgo failed: " + r.stdout[-3000:])
+    for k in mine:
+        if os.path.basename(k) not in cgofiles:  # patched plain Go file of the package: ordinary overlay entry
+            patched[k] = mine[k]
     xf = os.path.join(verif, "bin", "cgoxf")
     pure = os.path.join(d, "zz_pure_gotypes.go")
     with open(pure, "w") as f:
